@@ -79,8 +79,15 @@ def gen(rng):
                 "fail": str(rng.choice(["no", "no", "no", "budget", "loads"])), "edit": bool(rng.random() < 0.4),
                 "nonlinear_method": str(rng.choice(["constant", "automatic"]))}
         hist.append(step)
+    stored = {}
+    if rng.random() < 0.5:
+        # options stored on the net by the user (set_user_pf_options) are inputs too
+        pool = [("iter", 70), ("iter", 45), ("tol_res", 1e-4), ("ambient_temperature", 288.15), ("my_own_key", "x"),
+                ("max_iter_colebrook", 120), ("tol_p", 1e-5)]
+        for i in rng.permutation(len(pool))[:int(rng.integers(1, 4))]:
+            stored[pool[int(i)][0]] = pool[int(i)][1]
     s["c12"] = {"history": hist, "final_mode": str(rng.choice(MODES[:3] if thermal_ok else ["hydraulics"])),
-                "nan_outer": bool(rng.random() < 0.5)}
+                "nan_outer": bool(rng.random() < 0.5), "stored_options": stored}
     return s
 
 
@@ -93,12 +100,34 @@ def snapshot(net):
         if isinstance(v, pd.DataFrame):
             snap[k] = v.copy(deep=True)
         elif k in ("user_pf_options",):
-            snap[k] = {kk: vv for kk, vv in v.items() if kk != "hyd_flag"}
+            snap[k] = copy.deepcopy(dict(v))
+        elif k in ("fluid", "std_types"):
+            import pickle
+            snap[k] = pickle.dumps(v)
     return snap
 
 
 def diff_snapshots(a, b):
+    """all differences (one label per table column / per stored-option key)"""
+    out = []
     for k in a:
+        if isinstance(a[k], dict):
+            for kk in sorted(set(a[k]) | set(b.get(k, {}))):
+                if kk not in a[k] or kk not in b.get(k, {}) or a[k][kk] != b[k][kk]:
+                    out.append("%s:%s" % (k, kk))
+            continue
+        if isinstance(a[k], bytes):
+            if a[k] != b.get(k):
+                out.append(k)
+            continue
+        d = _diff_table(a, b, k)
+        if d:
+            out.append(d)
+    return out
+
+
+def _diff_table(a, b, k):
+    if True:
         if isinstance(a[k], pd.DataFrame):
             if not (a[k].shape == b[k].shape and list(a[k].columns) == list(b[k].columns)):
                 return k + ":shape"
@@ -110,8 +139,6 @@ def diff_snapshots(a, b):
                     same = all((p == q) or (p != p and q != q) for p, q in zip(x, y))
                 if not same:
                     return "%s.%s" % (k, c)
-        elif a[k] != b[k]:
-            return k
     return None
 
 
@@ -136,9 +163,13 @@ def oracle(spec):
     net = netgen.build(spec)
     if v["nan_outer"] and len(net.pipe):
         net.pipe["outer_diameter_mm"] = np.nan
+    if v.get("stored_options"):
+        pp.set_user_pf_options(net, **v["stored_options"])
     fresh0 = copy.deepcopy(net)
     fails = []
     opts0 = {k: w for k, w in spec["options"].items() if k not in ("mode", "use_numba", "friction_model", "nonlinear_method")}
+    if "iter" in v.get("stored_options", {}):
+        opts0 = {k: w for k, w in opts0.items() if not k.startswith("max_iter_")}   # let the stored shorthand take effect
     tags = []
     for step in v["history"]:
         before = snapshot(net)
@@ -164,8 +195,7 @@ def oracle(spec):
             tags.append("ok")
         except Exception as e:
             tags.append(type(e).__name__)
-        d = diff_snapshots(before, snapshot(net))
-        if d:
+        for d in diff_snapshots(before, snapshot(net)):
             fails.append({"fingerprint": "C12:input-mutated:%s" % d, "clause": "a calculation never modifies user inputs",
                           "detail": {"what": d, "mode": step["mode"]}})
         if undo:
